@@ -7,6 +7,7 @@ use crate::exec::{
 use crate::harness::{Args, Stats};
 use crate::rng::{combine, Chooser, Rng};
 use crate::trisim::{guarded, Delivery, Policy, RunCfg, RunResult, Sim};
+use ciphercore_base::data_types::Type;
 use ciphercore_base::data_values::Value;
 use ciphercore_base::evaluators::Evaluator;
 use ciphercore_base::graphs::Operation;
@@ -377,6 +378,43 @@ pub fn minimise(mut rp: TriReplay, budget: usize) -> TriReplay {
             }
         }
     }
+    // (3d) shrink the shapes of array-typed inputs: each dimension to 1, else to half (the elements that remain keep
+    // their values); a candidate the graph API rejects (a Reshape or constant that no longer fits) is not tried
+    for k in 0..rp.case.inputs.len() {
+        let mut progress = true;
+        while progress && left > 0 {
+            progress = false;
+            let rank = match rp.case.prog.input_types().get(k) {
+                Some(Type::Array(s, _)) => s.len(),
+                _ => 0,
+            };
+            for dim in 0..rank {
+                let cur = match &rp.case.prog.input_types()[k] {
+                    Type::Array(s, _) => s[dim],
+                    _ => 1,
+                };
+                if cur <= 1 {
+                    continue;
+                }
+                for new in [1u64, cur / 2] {
+                    if new >= cur || new == 0 || left == 0 {
+                        continue;
+                    }
+                    if let Some(c2) = shrink_input_dim(&rp.case, k, dim, new) {
+                        let mut cand = rp.clone();
+                        cand.case = c2;
+                        if let Some(v) = try_candidate(&cand, &mut left) {
+                            cand.violation = v;
+                            rp = cand;
+                            rp.notes.push(format!("input {} dimension {} shrunk {} -> {}", k, dim, cur, new));
+                            progress = true;
+                            break;
+                        }
+                    }
+                }
+            }
+        }
+    }
     // (4) inputs -> zeros / ones
     for k in 0..rp.case.inputs.len() {
         let t = rp.case.prog.input_types()[k].clone();
@@ -486,6 +524,56 @@ fn drop_steps(case: &Case, keep_inputs: bool) -> Option<Case> {
     }
     c2.owners = owners;
     c2.inputs = inputs;
+    Some(c2)
+}
+
+/// The case in which dimension `dim` of the k-th (array-typed) program input has length `new`; the surviving
+/// elements keep their values. None if the input is not an array or the program no longer builds.
+fn shrink_input_dim(case: &Case, k: usize, dim: usize, new: u64) -> Option<Case> {
+    let old_t = case.prog.input_types().get(k)?.clone();
+    let (shape, st) = match &old_t {
+        Type::Array(s, st) => (s.clone(), *st),
+        _ => return None,
+    };
+    if dim >= shape.len() || new == 0 || new >= shape[dim] {
+        return None;
+    }
+    let mut ns = shape.clone();
+    ns[dim] = new;
+    let old = crate::vals::dec(case.inputs.get(k)?, &old_t);
+    let total: u64 = ns.iter().product();
+    let mut vals = Vec::with_capacity(total as usize);
+    for flat in 0..total {
+        // multi-index of `flat` in the new shape -> flat index in the old shape
+        let mut rem = flat;
+        let mut idx = vec![0u64; ns.len()];
+        for d in (0..ns.len()).rev() {
+            idx[d] = rem % ns[d];
+            rem /= ns[d];
+        }
+        let mut of = 0u64;
+        for d in 0..shape.len() {
+            of = of * shape[d] + idx[d];
+        }
+        vals.push(*old.get(of as usize)?);
+    }
+    let new_t = Type::Array(ns, st);
+    let mut c2 = case.clone();
+    {
+        let mm = c2.prog.main_mut();
+        let mut seen = 0;
+        for s in mm.steps.iter_mut() {
+            if let Operation::Input(_) = s.op {
+                if seen == k {
+                    s.op = Operation::Input(new_t.clone());
+                    break;
+                }
+                seen += 1;
+            }
+        }
+    }
+    c2.inputs[k] = crate::vals::enc(&vals, st);
+    c2.prog.build().ok()?;
     Some(c2)
 }
 
